@@ -51,6 +51,7 @@ def check_doc(acc, headers, hist, pre=(), all_filters=False, mono=True):
         acc.violation(Viol('listing', 'category-differs-from-documented', case, bad[0][1], bad[0][0]))
         return
     exp = [(e[0], g[1]) for g, e in zip(got, exp)]       # cells whose category the documentation leaves open take kernpy's
+    _two_documents(acc, doc, exp, case)
     hd = h64(text)
     filters = [None] + SINGLES + (ROT if all_filters else [f for i, f in enumerate(ROT) if (i + hd) % 8 == 0])
     for f in filters:
@@ -120,9 +121,34 @@ def menu(m, n, seed, cap):
     return rows
 
 
+_PREV = []     # (document, expected listing, case): the document checked before, still alive
+
+
+def _two_documents(acc, doc, exp, case):
+    """queries on another document in between must not change what an earlier document answers"""
+    if _PREV:
+        pdoc, pexp, pcase = _PREV[0]
+        acc.count('transitions', 2)
+        try:
+            got = listing(pdoc.get_all_tokens())
+            gotf = listing(pdoc.get_unique_tokens(filter_by_categories=[TC.CORE, TC.BARLINES]))
+            clo = catref.closure(['CORE', 'BARLINES'])
+            u, seen = [], set()
+            for x in pexp:
+                if x[1] in clo and x[0] not in seen:
+                    seen.add(x[0])
+                    u.append(x)
+            if got != pexp or gotf != u:
+                acc.violation(Viol('two-documents', 'an-earlier-document-answers-differently-after-another-one-was-queried', dict(pcase, then=case['text']), None, None))
+        except Exception as e:  # noqa
+            acc.violation(Viol('two-documents', 'raises', dict(pcase, then=case['text']), None, repr(e)[:100]))
+    _PREV[:] = [(doc, exp, case)]
+
+
 def _job(job):
     headers, prefix, depth, seed, cap, pre = job
     acc = Acc()
+    _PREV.clear()
     X.walk(headers, depth, seed, cap, menu, lambda h: check_doc(acc, headers, h, pre), prefix, pre)
     if prefix:
         acc.sample({'text': X.build(headers, prefix, pre).text(), 'filters': 'none, 37 singles, rotating pairs/complements'}, cap=1)
@@ -167,6 +193,18 @@ def run(ctx):
 
 def replay(case):
     acc = Acc()
+    if 'then' in case:
+        # the pair of documents: rebuild the first from its history, then any document with the recorded second text
+        _PREV.clear()
+        check_doc(acc, case['headers'], X.hist_from_json(case['hist']), tuple(case.get('pre', ())), mono=False)
+        d2, _ = kp.loads(case['then'])
+        for f in (None, [TC.CORE], [TC.BARLINES, TC.SIGNATURES], [TC.CHORD, TC.BARLINES]):
+            d2.get_all_tokens(filter_by_categories=f); d2.get_unique_tokens(filter_by_categories=f); d2.frequencies(f)
+        kp.is_monophonic(d2)
+        pdoc, pexp, pcase = _PREV[0]
+        if listing(pdoc.get_all_tokens()) != pexp:
+            acc.violation(Viol('two-documents', 'an-earlier-document-answers-differently-after-another-one-was-queried', case, None, None))
+        return acc.viol
     if 'hist' not in case:
         for text, expm in MONO:
             if text == case['text'] and kp.is_monophonic(kp.loads(text)[0]) != expm:
